@@ -604,6 +604,10 @@ def run(chk):
     per_mode(chk)
     initialisers(chk)
     driver_typestate(chk)
+    # the z stencil of the parallel gradient wraps periodically over ALL z rows whatever block the caller owns: the three index
+    # regimes tile [0, nz) (shared with C13)
+    from .C13 import regimes as _regimes
+    _regimes(chk)
     chk.floor("C-window", 30)
     chk.floor("C-sort", 6)
     chk.floor("S-operator-layout", 25)
